@@ -198,6 +198,49 @@ func c02InsertRun(capPath string, n int) (viols []seamViol, err error) {
 	return viols, nil
 }
 
+// c02InsertTwiceRun presses Ctrl+I twice with nobody attached; between the
+// two the insert source reuses its buffer for new content of the same length
+// (as a source that keeps one buffer does).  Both queued lines are what was
+// inserted when the key was pressed.
+func c02InsertTwiceRun(capPath string, n int) (viols []seamViol, err error) {
+	buf := make([]byte, n)
+	fill := func(alpha string) string {
+		for i := range buf {
+			buf[i] = alpha[i%len(alpha)]
+		}
+		return string(buf)
+	}
+	first := fill("abcdefghijklmnopqrstuvwxyz\n")
+	ts, err := newTermSessionOpts(capPath, true, buf, false)
+	if nil != err {
+		return nil, err
+	}
+	defer ts.close()
+	quiesce.Wait()
+	ts.sh.VerifKey(0x09)
+	quiesce.Wait()
+	second := fill("ZYXWVUTSRQPONMLKJIHGFEDCBA\n")
+	ts.sh.VerifKey(0x09)
+	quiesce.Wait()
+	var got []string
+	for more := true; more; {
+		select {
+		case l := <-ts.ich:
+			got = append(got, l)
+		default:
+			more = false
+		}
+	}
+	if 2 != len(got) || got[0] != first || got[1] != second {
+		what := fmt.Sprintf("%d entries queued", len(got))
+		if 2 == len(got) {
+			what = fmt.Sprintf("first entry intact: %v (begins %q), second intact: %v (begins %q)", got[0] == first, trunc80(got[0]), got[1] == second, trunc80(got[1]))
+		}
+		viols = append(viols, seamViol{Sig: "queued-insert-changed", What: fmt.Sprintf("Ctrl+I twice with no shell attached, %d bytes each, the source reusing its buffer in between: %s", n, what), Case: fmt.Sprintf("insert-twice:%d", n)})
+	}
+	return viols, nil
+}
+
 // c02TypedRun pastes n lines into the terminal in one go and checks that they
 // enter the input channel once each, in the order typed.
 func c02TypedRun(capPath string, n int) (viols []seamViol, err error) {
@@ -354,6 +397,16 @@ func termSeamWorker(args []string) int {
 			if !strings.Contains(got, line+"\r\n") || !strings.Contains(got, "plain "+text+"\r\n") {
 				add([]seamViol{{Sig: "notice-changed-on-the-way-to-the-terminal", What: fmt.Sprintf("the notice %q (and the chunk %q) reached the terminal as %q", line, "plain "+text, got), Case: "c10:" + text}})
 			}
+		}
+	case "c02i2":
+		for _, n := range []int{27, 4096, 40000} {
+			vs, err := c02InsertTwiceRun(capPath, n)
+			if nil != err {
+				res.Err = err.Error()
+				break
+			}
+			res.Execs++
+			add(vs)
 		}
 	case "c02t":
 		/* For a worker started with another TERM: the typed lines only. */
